@@ -21,6 +21,20 @@ SPECIAL = [
     'a: 1\n---\n/-/-/-/\n---\nb: 2\n',
     'body: |\n  a\n  ---\n  b\n   --- \n',                    # indented / padded terminator-like lines
 ]
+# new documents for the update path
+UPDATED = [
+    'DATA_DIR: ${HOME}/data\nprice: $10 per unit\n',      # $name, ${name}, $1: templates for regexp.Expand
+    'a: $1\n---\nb: $PATH\n',
+    'cmd: echo $$ ${\n',
+    'k: "$name"\nj: \'${0}\'\n',
+    'pct: 100%\nfmt: "%s %d %v"\n',
+    'a: 1\n---\n---\nb: 2\n',
+    '---\nonly: marker\n',
+    'text: |\n  $HOME\n  ---\n  ${x}\nend: 1',
+    'shorter: 1',
+    '# only a comment changed $1\nz: 1\n\n',
+    'back: \\1 \\0 $&\n',
+]
 BAD = ['a: [1, 2', 'a: b: c: d', '\t- x\n\t\ty', 'key: "unterminated', '{a: 1', 'a:\n  - b\n c',
        # well-formed syntax that cannot be decoded: undefined aliases (also in a later document), a scalar violating its tag
        'settings: *bsae\n', 'a: &x 1\nb: *y\n', '- *second\n', 'ok: 1\n---\nlater: *nowhere\n', 'enabled: !!bool maybe\n']
@@ -108,6 +122,63 @@ def make_world(g, tag):
                 return None
             return exp_silent(line, raw, ww)
         w.add('yaml 1 %d s %s' % (t, hx(d)), ('yaml-replays', exp))
+        w.add('end %d' % t)
+    # the UPDATE path: the same calls with different documents while updating is enabled.  The new
+    # document is stored exactly as given too (text that is a template for regexp.Expand, `%` verbs,
+    # multi-document streams), every other entry keeps its text, and a read-only run replays it
+    before_upd = w.add('fsdump')
+    w.add('reset')
+    w.add(mode_line(False, r.choice(['true', 'true', '']) ))
+    w.add(cfg_line(1, 'snaps', 'f', None, 'true'))
+    ups = []
+    for i, d, n in calls:
+        t = 200 + n
+        d2 = r.choice(UPDATED) if r.random() < 0.7 else 'zz_first: $1 ${x}\n' + d
+        if d2 == d:
+            d2 = 'changed: ${really}\n' + d2
+        w.add('begin %d %s' % (t, hx(b'TestY%d' % n)))
+        ups.append((w.add('yaml 1 %d %s %s' % (t, r.choice(['s', 'b']), hx(d2))), d2, n, i))
+        w.add('end %d' % t)
+
+    def oracle_upd(line, raw, ww):
+        fs, fs0 = parse_fs(raw), parse_fs(ww.impl[before_upd])
+        p = [x for x in fs if x.endswith(b'/f.snap')]
+        if not p:
+            return None
+        ents, ents0 = parse_snap(fs[p[0]]), parse_snap(fs0.get(p[0], b''))
+        if ents is None or ents0 is None:
+            return 'snapshot file is not well formed after the update run'
+        if [e[0] for e in ents] != [e[0] for e in ents0]:
+            return 'the update run changed the set or order of entries'
+        new = dict(ents0)
+        for j, d2, n, i in ups:
+            res = Line(ww.impl[j])
+            kinds = [k for k, _ in res.events]
+            if [k for k, _ in Line(ww.impl[i]).events] != ['L']:
+                continue            # the original was never recorded
+            if kinds == ['E']:
+                continue            # the library rejected the new document: nothing may change
+            if kinds != ['L'] or not res.events[0][1].endswith(b'updated'):
+                return 'a changed document in update mode must give exactly one `updated` log, got %r' % [(k, x[:40]) for k, x in res.events]
+            new[b'TestY%d - 1' % n] = esc(d2.encode())
+        for tid, body in ents:
+            if body != new.get(tid):
+                return 'after the update run entry [%s] holds %r, expected %r' % (tid.decode(), body[:80], (new.get(tid) or b'')[:80])
+        return None
+    w.add('fsdump', ('yaml-update-verbatim', oracle_upd))
+    w.add('reset')
+    w.add(mode_line(True, ''))
+    w.add(cfg_line(1, 'snaps', 'f', None, 'none'))
+    for j, d2, n, i in ups:
+        t = 300 + n
+        w.add('begin %d %s' % (t, hx(b'TestY%d' % n)))
+
+        def exp2(line, raw, ww, j=j):
+            r2 = Line(ww.impl[j])
+            if [k for k, _ in r2.events] != ['L'] or not r2.events[0][1].endswith(b'updated'):
+                return None
+            return exp_silent(line, raw, ww)
+        w.add('yaml 1 %d s %s' % (t, hx(d2)), ('updated-yaml-replays', exp2))
         w.add('end %d' % t)
     return w
 
